@@ -28,6 +28,136 @@ type c10Logger struct {
 
 var reKid = regexp.MustCompile(`k(\d+)["]?[=:]`)
 
+// c10WriterIsolation: a logger that was given another logger's writer list (the list GetWriter /
+// GetWriterBy return) keeps what it was given: later Add/Remove calls on either logger reach the
+// other's destinations in no way. Decided from the statement, no model involved.
+type c10cnt struct {
+	id int
+	n  *[12]int
+}
+
+func (c c10cnt) Write(p []byte) (int, error) { c.n[c.id]++; return len(p), nil }
+
+func c10WriterIsolation(r *run, g *rng) {
+	for round := 0; round < 24; round++ {
+		var n [12]int
+		w := func(i int) c10cnt { return c10cnt{i, &n} }
+		errSide := g.chance(1, 2)
+		lvl := slog.InfoLevel
+		if errSide {
+			lvl = slog.ErrorLevel
+		}
+		a := slog.New(fmt.Sprintf("iso-a-%d", round)).SetLevel(slog.InfoLevel)
+		k := 2 + g.intn(2)
+		own := map[int]bool{}
+		for i := 0; i < k; i++ {
+			own[i] = true
+			switch {
+			case errSide && i == 0:
+				a.SetErrorWriter(w(i))
+			case errSide:
+				a.AddErrorWriter(w(i))
+			case i == 0:
+				a.SetWriter(w(i))
+			default:
+				a.AddWriter(w(i))
+			}
+		}
+		var b slog.Logger = slog.New(fmt.Sprintf("iso-b-%d", round))
+		if g.chance(1, 2) {
+			b = a.New("child")
+		}
+		b.SetLevel(slog.InfoLevel)
+		given := a.GetWriterBy(lvl)
+		if errSide {
+			b.SetErrorWriter(given)
+		} else {
+			b.SetWriter(given)
+		}
+		snapshot := map[int]bool{}
+		for i := range own {
+			snapshot[i] = true
+		}
+		var hist []string
+		for step := 0; step < 3; step++ {
+			id := 4 + step*2
+			switch g.intn(3) {
+			case 0:
+				if errSide {
+					a.AddErrorWriter(w(id))
+				} else {
+					a.AddWriter(w(id))
+				}
+				own[id] = true
+				hist = append(hist, fmt.Sprintf("a.Add(%d)", id))
+			case 1:
+				if errSide {
+					b.AddErrorWriter(w(id + 1))
+				} else {
+					b.AddWriter(w(id + 1))
+				}
+				snapshot[id+1] = true
+				hist = append(hist, fmt.Sprintf("b.Add(%d)", id+1))
+			default:
+				victim := g.intn(k)
+				if errSide {
+					a.RemoveErrorWriter(w(victim))
+				} else {
+					a.RemoveWriter(w(victim))
+				}
+				delete(own, victim)
+				hist = append(hist, fmt.Sprintf("a.Remove(%d)", victim))
+			}
+		}
+		probe := func(l slog.Logger, want map[int]bool, who string) {
+			n = [12]int{}
+			if errSide {
+				l.Error("probe")
+			} else {
+				l.Info("probe")
+			}
+			for i := 0; i < 12; i++ {
+				exp := 0
+				if want[i] {
+					exp = 1
+				}
+				if n[i] != exp {
+					r.violate(violation{What: "an operation on one logger changed the writers of another logger",
+						Input: map[string]any{"setup": fmt.Sprintf("a has %d %s writers 0..%d; b was given a.GetWriterBy(%v)", k, map[bool]string{true: "error", false: "normal"}[errSide], k-1, lvl),
+							"history": hist, "probed": who},
+						Expected: fmt.Sprintf("writer %d receives %d record(s)", i, exp), Actual: fmt.Sprintf("%d (all: %v)", n[i], n)})
+					return
+				}
+			}
+		}
+		probe(a, own, "a")
+		probe(b, snapshot, "b")
+		// one list given to two loggers: each of them keeps it for itself
+		lst := a.GetWriterBy(lvl)
+		c1 := slog.New(fmt.Sprintf("iso-c1-%d", round)).SetLevel(slog.InfoLevel)
+		c2 := slog.New(fmt.Sprintf("iso-c2-%d", round)).SetLevel(slog.InfoLevel)
+		if errSide {
+			c1.SetErrorWriter(lst)
+			c2.SetErrorWriter(lst)
+			c1.AddErrorWriter(w(10))
+			c2.AddErrorWriter(w(11))
+		} else {
+			c1.SetWriter(lst)
+			c2.SetWriter(lst)
+			c1.AddWriter(w(10))
+			c2.AddWriter(w(11))
+		}
+		want1, want2 := map[int]bool{10: true}, map[int]bool{11: true}
+		for i := range own {
+			want1[i], want2[i] = true, true
+		}
+		hist = append(hist, "lst := a.GetWriterBy(..); c1.Set(lst); c2.Set(lst); c1.Add(10); c2.Add(11)")
+		probe(c1, want1, "c1")
+		probe(c2, want2, "c2")
+		r.seen(fmt.Sprintf("iso|%v|%d|%s", errSide, k, strings.Join(hist, ",")))
+	}
+}
+
 func runC10(r *run) {
 	g := &rng{s: r.seed*86028121 + 10}
 	r.rule = "random histories of 1..40 hierarchy operations on a growing forest, every logger observed after every operation; distinct = distinct (operation kind, target depth, created/existing) ; non-trivial = all operations"
@@ -82,7 +212,13 @@ func runC10(r *run) {
 		// the default logger is logger 0
 		def := slog.Default()
 		add(def, -1)
-		r.emit(fmt.Sprintf("C10 newroot %s %d", hxs(def.Name()), int(slog.GetLevel())), "0")
+		// the package's default level as this harness knows it: read once on the fresh state, afterwards
+		// changed only by the package-level SetLevel calls made here (never read back)
+		pkgLevel := int(slog.GetLevel())
+		if int(def.Level()) != pkgLevel {
+			r.violate(violation{What: "harness: the fresh default logger is not at the package level"})
+		}
+		r.emit(fmt.Sprintf("C10 newroot %s %d", hxs(def.Name()), pkgLevel), "0")
 
 		observe := func(i int) (string, string) {
 			x := ls[i]
@@ -334,17 +470,20 @@ func runC10(r *run) {
 				kindName = "new-detached"
 				name := fmt.Sprintf("det%d", step)
 				if g.chance(1, 3) {
-					slog.SetLevel(slog.Level([]int{3, 4, 2}[g.intn(3)])) // moves the package default level and the default logger
+					pkgLevel = []int{3, 4, 2}[g.intn(3)]
+					slog.SetLevel(slog.Level(pkgLevel)) // moves the package default level and the default logger
 					touched[0] = true
-					r.emit(fmt.Sprintf("C10 set 0 level %d", int(slog.GetLevel())), "0")
+					r.emit(fmt.Sprintf("C10 set 0 level %d", pkgLevel), "0")
 				}
 				l := slog.New(name)
 				id := add(l, -1)
 				touched[id] = true
-				opDesc = fmt.Sprintf("newroot %s %d", hxs(name), int(slog.GetLevel()))
+				opDesc = fmt.Sprintf("newroot %s %d", hxs(name), pkgLevel)
 				r.emit("C10 "+opDesc, strconv.Itoa(id))
-				if l.Parent() != nil || !l.ColorMode() || l.JSONMode() || l.Level() != slog.GetLevel() {
-					r.violate(violation{What: "a detached logger does not start parentless, colored, at the package level", Input: opDesc})
+				if l.Parent() != nil || !l.ColorMode() || l.JSONMode() || int(l.Level()) != pkgLevel {
+					r.violate(violation{What: "a detached logger does not start parentless, colored, at the package level",
+						Input:  map[string]any{"history": h, "step": step, "op": opDesc, "package_level": pkgLevel, "default_logger_level": int(slog.Default().Level())},
+						Actual: fmt.Sprintf("parent=%v color=%v json=%v level=%d", l.Parent() != nil, l.ColorMode(), l.JSONMode(), int(l.Level()))})
 				}
 			}
 			r.seen(fmt.Sprintf("%s|%d", kindName, ls[target].depth(ls)))
@@ -422,6 +561,7 @@ func runC10(r *run) {
 			}
 		}
 	}
+	c10WriterIsolation(r, g)
 	slog.VerifResetGlobals()
 }
 
